@@ -15,7 +15,7 @@ BN_FAULTS = ['flip', 'flip', 'v_zero', 'v_ord', 'v_addord', 'v_negmod', 'v_inc',
 PT_FAULTS = ['flip', 'flip', 'v_inf', 'v_gen', 'v_neg', 'v_dbl', 'v_rand', 'v_offcurve', 'tag', 'trunc1', 'set']
 G2_FAULTS = PT_FAULTS + ['v_nosub', 'v_nosub']
 GT_FAULTS = ['flip', 'v_one', 'v_gen', 'v_rand', 'v_inv', 'v_sqr', 'v_negfp', 'v_negfp', 'trunc1', 'set']
-BYTES_FAULTS = ['flip', 'flip', 'flip', 'trunc1', 'trunc', 'extend', 'set', 'empty', 'zero', 'extlong']
+BYTES_FAULTS = ['flip', 'flip', 'flip', 'trunc1', 'trunc', 'extend', 'set', 'empty', 'zero', 'extlong', 'hashmsg']
 FAULTS_BY_TYPE = {'bn': BN_FAULTS, 'ec': PT_FAULTS, 'g1': PT_FAULTS, 'g2': G2_FAULTS, 'gt': GT_FAULTS, 'bytes': BYTES_FAULTS}
 
 
@@ -145,7 +145,7 @@ class Sess:
         fl = sorted('%s:%s' % (f, r['kind']) for f, r in self.m.items() if r['kind'] != 'none')
         if 'forged-for-identity-key' in self.notes:
             fl = ['identity-public-key-forgery']       # whatever else was altered, the key is the identity
-        fl += sorted(n for n in self.notes if n.startswith('coordinated-') or n == 'forged-extension')
+        fl += sorted(n for n in self.notes if n.startswith('coordinated-') or n in ('forged-extension', 'related-key-adapted'))
         if 'forged-for-order-two-key' in self.notes:
             fl = ['order-two-off-curve-key-forgery']
         if any(n.startswith('one-bit-of-r-off') for n in self.notes):
@@ -315,6 +315,13 @@ def generic_sig_oracle(ver_name='ver', authenticated=None, ok_malleations=()):
             out.fault('all-identity-triple')
             if got == '1':
                 v.bad('all-identity|expected=reject|got=accept', 'the triple in which every group element is the identity was accepted')
+            return
+        if 'related-key-adapted' in s.notes:
+            # an accepted proof moved to the statement Y + [d]G by adjusting the response: needs no witness, so it
+            # must not verify (the challenge binds the statement)
+            out.fault('related-key-adaptation')
+            if got == '1':
+                v.bad('related-key|expected=reject|got=accept', 'a proof for Y, adapted without the witness to Y + [d]G (r - c d), was accepted')
             return
         if any(f in ('pk',) for f in changed) and any(f not in ('pk',) for f in changed):
             out.probe('key-and-signature-both-substituted')
